@@ -249,6 +249,13 @@ def plan(S, prop, mode, tier, avoid):
                 hdr2 = draw_header(by)
                 if hdr2["ctype1"] == hdr["ctype1"]:
                     break
+        if chance(by, 0.3):
+            # the same detector read out through a small window: a header that differs only in NAXIS1/NAXIS2,
+            # used (with its own lazy inverse fit) before the full frame is
+            hdr2 = dict(hdr)
+            hdr2["naxis1"] = max(8, int(hdr["naxis1"]) // pick(by, [4, 10, 30]))
+            hdr2["naxis2"] = max(8, int(hdr["naxis2"]) // pick(by, [4, 10, 30]))
+            flat.insert(0, {"k": "bystander", "c": 9, "use": "nofind"})
         out["cfg"]["hdr2"] = hdr2
         for _ in range(by.randrange(1, 3)):
             flat.insert(by.randrange(0, len(flat) + 1), {"k": "bystander", "c": 9, "use": pick(by, ["i2s", "nofind", "find", "none"])})
